@@ -2,8 +2,8 @@ package rules
 
 import (
 	"fmt"
-	"regexp"
 	"go/types"
+	"regexp"
 	"sort"
 	"strings"
 
@@ -479,8 +479,10 @@ func TMask(rc *RC) {
 // view of a vector is not unit-strided, so constants alone cannot be its transposed strides.
 var t13SameAxis = regexp.MustCompile(`^%strides\[([^\]]+)\] = (?:\$r\.strides|%currentStride)\[([^\]]+)\]$`)
 
+var t13ByAxes = regexp.MustCompile(`(?:hape|trides)\w*\[[^\]]+\] = [^\n]*\$axes\[`)
+
 func T13(rc *RC) {
-	rc.S.Declare("T13", "AP.T: no bare return with neither an error nor a built pattern; the vector branch derives the transposed strides from the source's strides, not from constants alone", 2)
+	rc.S.Declare("T13", "AP.T: no bare return with neither an error nor a built pattern; the vector branch derives the transposed strides from the source's strides, not from constants alone; the general branch permutes by the requested axes (UnsafePermute or stores indexed by them) on every path", 3)
 	key := "tensor.(*AP).T"
 	fi := anchor(rc, "T13", key)
 	if fi == nil {
@@ -496,6 +498,8 @@ func T13(rc *RC) {
 	var bad []string
 	vec, vecFromSource := 0, 0
 	var sameAxis []string
+	general := 0
+	var notPermuted []string
 	for _, p := range paths {
 		f := pathG(p)
 		isVec := ir.Implies(f, ir.BAtom("$r.IsVector()"))
@@ -515,6 +519,29 @@ func T13(rc *RC) {
 			}
 			if !set && !ir.Implies(f, ir.BAtom("$r.IsScalar()")) {
 				bad = append(bad, fmt.Sprintf("the path [%s] returns without an error and without a built pattern: the caller installs a zero access pattern", strings.Join(p.Guards, " && ")))
+			}
+		}
+		if !isVec {
+			// (c) the general branch: a pattern built for explicit axes is the source pattern
+			// permuted BY those axes - through UnsafePermute or by stores indexed with them
+			builds, consults := false, false
+			for _, st := range p.Steps {
+				txt := st.Head
+				if st.Kind == "loop" || st.Kind == "range" {
+					txt = ir.Render([]*ir.Node{st})
+				}
+				if strings.Contains(st.Head, "MakeAP(") && !strings.Contains(st.Head, "$r.Clone()") {
+					builds = true
+				}
+				if strings.Contains(txt, "UnsafePermute(") || t13ByAxes.MatchString(txt) {
+					consults = true
+				}
+			}
+			if builds {
+				general++
+				if !consults {
+					notPermuted = append(notPermuted, fmt.Sprintf("the path [%s] builds the transposed pattern without permuting shape and strides by the requested axes (no UnsafePermute, no store indexed by them): whatever it does is right for some axes only, and invalid axes are not refused", strings.Join(p.Guards, " && ")))
+				}
 			}
 		}
 		if isVec {
@@ -547,6 +574,11 @@ func T13(rc *RC) {
 		rc.S.Viol("T13", key+"#returns", pos, strings.Join(uniq(bad), "; ")).Sig = "bare return"
 	} else {
 		rc.S.Ok("T13", key+"#returns", pos, fmt.Sprintf("%d paths: every bare return has set the error or built the pattern", len(paths)))
+	}
+	if len(notPermuted) > 0 {
+		rc.S.Viol("T13", key+"#general-permutation", pos, strings.Join(uniq(notPermuted), "; ")).Sig = "pattern built without the axes"
+	} else {
+		rc.S.Ok("T13", key+"#general-permutation", pos, fmt.Sprintf("%d non-vector paths build the pattern, each through UnsafePermute or stores indexed by the axes", general))
 	}
 	if len(sameAxis) > 0 {
 		rc.S.Viol("T13", key+"#vector-strides", pos, fmt.Sprintf("the vector branch takes a transposed stride from the same axis of the source (%s): the two axes are not exchanged", strings.Join(uniq(sameAxis), "; "))).Sig = "same-axis stride"
